@@ -89,11 +89,11 @@ func (fi *fnInfo) delegate() string {
 }
 
 type boundsFamily struct {
-	name      string
-	bounds    string // file built with the bounds tag
-	nobounds  string
-	exact     bool // guard sequences must be equal (mat); otherwise bounds may have extra guards
-	pkgDir    string
+	name     string
+	bounds   string // file built with the bounds tag
+	nobounds string
+	exact    bool // guard sequences must be equal (mat); otherwise bounds may have extra guards
+	pkgDir   string
 }
 
 func parseDirFuncs(dir string) map[string][]*ast.FuncDecl {
@@ -769,7 +769,7 @@ func runR3(res *core.Result) {
 				Rule: "TWIN.r3",
 				Key:  fmt.Sprintf("TWIN.r3|spatial/r3.%s", name),
 				Pos:  core.Pos(pos), Func: "spatial/r3." + name,
-				Msg:  "mat_safe.go and mat_unsafe.go disagree in " + name + ": " + msg,
+				Msg: "mat_safe.go and mat_unsafe.go disagree in " + name + ": " + msg,
 			})
 		}
 		if len(ea) != 9 || len(eb) != 9 {
